@@ -33,6 +33,7 @@ def R_deep(x, tol):
     if isinstance(x, (str, bytes)):
         return x
     if isinstance(x, dict):
+        # a dict subclass (OrderedDict, defaultdict, Counter): which mapping type the rounded copy has is not specified, its items are
         return dict((k, R_deep(v, tol)) for k, v in x.items())
     if isinstance(x, (list, tuple, set, frozenset)):
         return type(x)(R_deep(e, tol) for e in x)
@@ -61,7 +62,10 @@ def R_call(args, kwds, tol, kind):
 
 def exact(a, b):
     """deep, type-exact equality (1 vs 1.0 differ; set element types compared as multisets)"""
-    if type(a) is not type(b):
+    if isinstance(a, dict) and isinstance(b, dict) and type(a) is not type(b):
+        # plain dict vs dict subclass with the same items: accepted (underspecified), contents compared below
+        pass
+    elif type(a) is not type(b):
         return False
     if isinstance(a, (list, tuple)):
         return len(a) == len(b) and all(exact(x, y) for x, y in zip(a, b))
@@ -99,7 +103,9 @@ def structures():
             st.lists(ch, max_size=3).map(lambda xs: ['l', xs]),
             st.lists(st.one_of(floatspecs(), V.ints(), V.strs(False)), max_size=3).map(lambda xs: ['S', xs]),
             st.lists(st.tuples(V.strs(False), ch), max_size=3).map(lambda kvs: ['d', [list(kv) for kv in kvs]]),
-            st.lists(st.tuples(hk, ch), max_size=2).map(lambda kvs: ['d', [list(kv) for kv in kvs]]))
+            st.lists(st.tuples(hk, ch), max_size=2).map(lambda kvs: ['d', [list(kv) for kv in kvs]]),
+            st.tuples(st.sampled_from(['ordered', 'default', 'counter']), st.lists(st.tuples(V.strs(False), st.one_of(floatspecs(), V.ints())), max_size=2, unique_by=lambda kv: repr(kv[0]))).map(
+                lambda t: ['D', t[0], [list(kv) for kv in t[1]]]))
     return st.recursive(leaf, ext, max_leaves=6)
 
 
@@ -114,6 +120,9 @@ def float_paths(spec, path=()):
     elif t == 'd':
         for i, (k, v) in enumerate(spec[1]):
             out += float_paths(v, path + (i, 1))
+    elif t == 'D':
+        for i, (k, v) in enumerate(spec[2]):
+            out += float_paths(v, path + (i, 1))
     return out
 
 
@@ -127,6 +136,11 @@ def nudge(spec, path, delta):
         k, v = items[p]
         items[p] = [k, nudge(v, path[2:], delta)]
         return ['d', items]
+    if t == 'D':
+        items = [list(kv) for kv in spec[2]]
+        k, v = items[p]
+        items[p] = [k, nudge(v, path[2:], delta)]
+        return ['D', spec[1], items]
     xs = list(spec[1])
     xs[p] = nudge(xs[p], path[1:], delta)
     return [t, xs]
@@ -197,11 +211,26 @@ def skeleton(spec):
         return t + '(' + ''.join(skeleton(x) for x in spec[1]) + ')'
     if t == 'd':
         return 'd(' + ''.join(k[0] + ':' + skeleton(v) for k, v in spec[1]) + ')'
+    if t == 'D':
+        return 'D%s(' % spec[1][0] + ''.join(k[0] + ':' + skeleton(v) for k, v in spec[2]) + ')'
     return t
+
+
+def has_dict_subclass(spec):
+    t = spec[0]
+    if t == 'D':
+        return True
+    if t in 'tlS':
+        return any(has_dict_subclass(x) for x in spec[1])
+    if t == 'd':
+        return any(has_dict_subclass(v) for _, v in spec[1])
+    return False
 
 
 def has_multiset(spec):
     t = spec[0]
+    if t == 'D':
+        return False
     if t == 'S':
         return len(spec[1]) > 1
     if t in 'tl':
@@ -213,6 +242,8 @@ def has_multiset(spec):
 
 def has_nonstr_dictkey(spec):
     t = spec[0]
+    if t == 'D':
+        return False
     if t == 'd':
         return any(k[0] != 's' or has_nonstr_dictkey(v) for k, v in spec[1])
     if t in 'tlS':
@@ -236,6 +267,8 @@ def run_case(case):
     nonstr = any(has_nonstr_dictkey(s) for s in specs)
     if nonstr:
         classes.append('nonstr_dict_key')
+    if any(has_dict_subclass(s) for s in specs):
+        classes.append('dict_subclass')
     log = []
     fn = make_fn(case, log)
     path = case['path']
@@ -322,6 +355,6 @@ def run_case(case):
     return out, nt, classes
 
 
-REQUIRED_CLASSES = ['pair_shares', 'pair_differs', 'straddles_boundary', 'nonstr_dict_key', 'floatdepth:1', 'floatdepth:2', 'tol:-1', 'tol:None', 'tol:0',
+REQUIRED_CLASSES = ['dict_subclass', 'pair_shares', 'pair_differs', 'straddles_boundary', 'nonstr_dict_key', 'floatdepth:1', 'floatdepth:2', 'tol:-1', 'tol:None', 'tol:0',
                     'deep:True', 'deep:False', 'path:standalone', 'path:call', 'path:key', 'path:keygen']
 TRIGGERS = {}
